@@ -1040,6 +1040,33 @@ func (t TE) ValidateTokenExchangeRequest(ctx context.Context, r op.TokenExchange
 	return nil
 }
 
+// Third-party tokens (op.TokenExchangeTokensVerifierStorage): the storage knows two kinds of foreign tokens, one that may only
+// stand for the subject of an exchange and one that may only stand for the actor.
+const (
+	ExtSubjectPrefix = "ext-subject:"
+	ExtActorPrefix   = "ext-actor:"
+)
+
+func (t TE) VerifyExchangeSubjectToken(ctx context.Context, token string, tokenType oidc.TokenType) (string, string, map[string]any, error) {
+	if err := t.S.enter(ctx, "VerifyExchangeSubjectToken"); err != nil {
+		return "", "", nil, err
+	}
+	if u, ok := strings.CutPrefix(token, ExtSubjectPrefix); ok && tokenType == oidc.JWTTokenType && u != "" {
+		return token, u, map[string]any{"ext": "subject"}, nil
+	}
+	return "", "", nil, errors.New("not a third-party subject token")
+}
+
+func (t TE) VerifyExchangeActorToken(ctx context.Context, token string, tokenType oidc.TokenType) (string, string, map[string]any, error) {
+	if err := t.S.enter(ctx, "VerifyExchangeActorToken"); err != nil {
+		return "", "", nil, err
+	}
+	if u, ok := strings.CutPrefix(token, ExtActorPrefix); ok && tokenType == oidc.JWTTokenType && u != "" {
+		return token, u, map[string]any{"ext": "actor"}, nil
+	}
+	return "", "", nil, errors.New("not a third-party actor token")
+}
+
 func (t TE) CreateTokenExchangeRequest(ctx context.Context, r op.TokenExchangeRequest) error {
 	return t.S.enter(ctx, "CreateTokenExchangeRequest")
 }
